@@ -282,7 +282,7 @@ func oblRelevant(o *Obligation, prop string) bool {
 	switch o.Kind {
 	case "nopanic", "requires":
 		return o.Props[prop]
-	case "binding", "limit", "vacuity":
+	case "binding", "limit", "vacuity", "model":
 		return true
 	}
 	if len(o.Props) == 0 {
